@@ -9,8 +9,11 @@ From Coq Require Import List NArith ZArith Bool String.
 From AMS Require Import Models Lifecycle LifecycleFacts.
 Import ListNotations.
 
-(* for EVERY schedule: when the main task has left the context — normally, with the
-   body's exception, with disconnect's, or because connect failed — no background
+(* for EVERY schedule — schedules contain re-entries of the same object (CReenter)
+   and cancellations of the owning task while in the body (CCancelOwner), so this
+   speaks about every session, not only the first: when the main task has left the
+   context — normally, with the body's exception, with the owner's cancellation, with
+   disconnect's, or because connect failed — no background
    task is left, the file holds the registry as of exit, the transport was
    disconnected (exactly once, if it had been connected) and the exception that
    leaves is the one that was raised, never CancelledError *)
@@ -22,10 +25,27 @@ Theorem C16_exit_clean :
     /\ l_file s = FHolds (l_reg s)
     /\ l_connected s = false
     /\ l_exc s <> Some ECancelled
-    /\ ((l_disc s = 1%nat /\ (l_exc s = None \/ l_exc s = Some EBody \/ l_exc s = Some EDisconnect))
+    /\ ((l_disc s = 1%nat /\ (l_exc s = None \/ l_exc s = Some EBody \/ l_exc s = Some EDisconnect \/ l_exc s = Some EOwnerCancelled))
         \/ (l_disc s = 0%nat /\ l_exc s = Some EConnect)).
 Proof. exact exit_clean. Qed.
 Print Assumptions C16_exit_clean.
+
+(* every session has its saver: while connecting and while the body runs a saver
+   task exists (so the registry is saved once entered and at every tick, below) *)
+Theorem C16_saver_in_every_session :
+  forall v cs,
+    let s := lrun true (linit v) cs in
+    (l_m s = MBody \/ l_m s = MConnect -> saver_alive (l_s s))
+    /\ (l_m s = MLoad \/ l_m s = MStart -> l_s s = SNone).
+Proof. exact saver_in_every_session. Qed.
+Print Assumptions C16_saver_in_every_session.
+
+Theorem C16_entry_save :
+  forall s, l_m s = MStart ->
+    let s1 := main_step true s true in
+    l_s s1 = SCreated /\ l_s (saver_step s1) = SSaving save_steps (l_reg s).
+Proof. exact entry_save. Qed.
+Print Assumptions C16_entry_save.
 
 Theorem C16_invariant : forall cs s, linv s -> linv (lrun true s cs).
 Proof. exact linv_run. Qed.
